@@ -140,7 +140,84 @@ fn cert_sequence(seed: &[u8; 32], steps: &[usize]) -> Vec<(Version, Vec<u8>, Vec
     out
 }
 
+/// Batches on one real Responder; 'g' = a request from a receiving socket, 'x' = one whose return
+/// address cannot be sent to. Every datagram that arrives must carry a CERT that is a delegation
+/// signed by the long-term key under this protocol's context.
+fn responder_with_failed_sends(v: Version, batches: &[&str], bad: std::net::SocketAddr) -> Result<Option<(String, String)>, String> {
+    use roughenough::config::MemoryConfig;
+    use roughenough::responder::Responder;
+    use roughenough::stats::{AggregatedStats, ServerStats};
+    crate::inproc::init();
+    let std_sock = std::net::UdpSocket::bind("127.0.0.1:0").map_err(|e| e.to_string())?;
+    std_sock.set_nonblocking(true).map_err(|e| e.to_string())?;
+    let port = std_sock.local_addr().unwrap().port();
+    let mut sock = mio::net::UdpSocket::from_socket(std_sock).map_err(|e| e.to_string())?;
+    let mut mc = MemoryConfig::new(port);
+    mc.seed = crate::inproc::DEFAULT_SEED.to_vec();
+    let lt_pk = crypto::public_key(&crate::inproc::DEFAULT_SEED);
+    let mut ltk = LongTermKey::new(&mc.seed);
+    let mut resp = Responder::new(rv(v), &mc, &mut ltk);
+    let mut stats: Box<dyn ServerStats> = Box::new(AggregatedStats::new());
+    let good = crate::inproc::Client::new();
+    let mut ctr = 0u64;
+    for (bi, b) in batches.iter().enumerate() {
+        let mut want = 0;
+        for ch in b.chars() {
+            ctr += 1;
+            let nonce = crate::inproc::nonce(0xc10_000 + ctr, v.nonce_len());
+            let addr = if ch == 'g' {
+                want += 1;
+                good.sock.local_addr().unwrap()
+            } else {
+                bad
+            };
+            match v {
+                Version::Classic => resp.add_classic_request(nonce, addr),
+                Version::Ietf13 => {
+                    let req = rtref::responder::std_request(v, &nonce);
+                    resp.add_ietf_request(&req, nonce, addr)
+                }
+            }
+        }
+        resp.send_responses(&mut sock, &mut stats);
+        resp.reset();
+        let mut got = vec![];
+        let deadline = std::time::Instant::now() + std::time::Duration::from_millis(200);
+        while got.len() < want && std::time::Instant::now() < deadline {
+            got.extend(good.drain());
+            if got.len() < want {
+                std::thread::sleep(std::time::Duration::from_millis(1));
+            }
+        }
+        if got.len() != want {
+            return Ok(Some(("missing-reply".into(), format!("batch {} ({}): {} replies to sendable addresses expected, {} arrived", bi, b, want, got.len()))));
+        }
+        for (d, _) in got {
+            let payload: &[u8] = if d.len() >= 12 && &d[..8] == codec::FRAME_MAGIC { &d[12..] } else { &d[..] };
+            let cert = codec::decode_lenient(payload).and_then(|f| f.into_iter().find(|(t, _)| *t == codec::tag("CERT")).map(|(_, c)| c));
+            match cert {
+                None => return Ok(Some(("no-cert".into(), format!("batch {} ({}): a reply carries no CERT", bi, b)))),
+                Some(c) => {
+                    if let Err(clause) = check_cert(&c, &lt_pk, v, None) {
+                        return Ok(Some((clause, format!("batch {} ({}): the reply's CERT ({} bytes) is not a delegation signed by the long-term key", bi, b, c.len()))));
+                    }
+                }
+            }
+        }
+    }
+    Ok(None)
+}
+
 pub fn replay_case(c: &Value) -> Result<Option<String>, String> {
+    if c["kind"] == "failed-send-batches" {
+        let v = if c["version"] == "classic" { Version::Classic } else { Version::Ietf13 };
+        let batches: Vec<String> = c["batches"].as_array().ok_or("batches")?.iter().map(|b| b.as_str().unwrap_or("").to_string()).collect();
+        let bad: std::net::SocketAddr = c["unsendable"].as_str().ok_or("unsendable")?.parse().map_err(|_| "unsendable address")?;
+        return crate::util::on_named_thread("worker-0", move || {
+            let bs: Vec<&str> = batches.iter().map(|b| b.as_str()).collect();
+            responder_with_failed_sends(v, &bs, bad).map(|r| r.map(|(a, b)| format!("{} {}", a, b)))
+        });
+    }
     if c["kind"] == "certseq" && c["steps"].is_array() {
         let seed: [u8; 32] = crypto::unhex(c["seed"].as_str().ok_or("seed")?).try_into().map_err(|_| "seed")?;
         let steps: Vec<usize> = c["steps"].as_array().unwrap().iter().map(|x| x.as_u64().unwrap_or(0) as usize).collect();
@@ -266,12 +343,48 @@ pub fn run(ctx: &Ctx) -> Result<(), String> {
     if let Some(e) = failed.lock().unwrap().take() {
         return Err(e);
     }
+    // replies a responder emits AFTER some of its replies could not be sent: the real Responder driven
+    // through its public API, batches whose return addresses include ones send_to fails for; every
+    // datagram that arrives (in that batch and in all later ones) carries a certificate
+    {
+        let bad = super::c17::unsendable_addresses();
+        ctx.cov("unsendable_return_addresses", json!(bad.len()));
+        if !bad.is_empty() {
+            // batch patterns over {g = sendable, x = unsendable}
+            let patterns: Vec<Vec<&str>> = vec![vec!["g", "xg", "g"], vec!["x", "g", "g"], vec!["gx", "gg", "g"], vec!["gxg", "g"], vec!["xx", "g", "xg", "gg"]];
+            let mut cases = vec![];
+            for v in [Version::Classic, Version::Ietf13] {
+                for (pi, _) in patterns.iter().enumerate() {
+                    for bi in 0..bad.len() {
+                        cases.push((v, pi, bi));
+                    }
+                }
+            }
+            par_for(cases.len(), 4, |k, _| {
+                let (v, pi, bi) = cases[k];
+                evals.fetch_add(1, Relaxed);
+                nontrivial.fetch_add(1, Relaxed);
+                let r = catch(|| responder_with_failed_sends(v, &patterns[pi], bad[bi]));
+                let detail = |m: String| json!({"kind":"failed-send-batches","version":v.name(),"batches":patterns[pi],"unsendable":bad[bi].to_string(),"message":m});
+                match r {
+                    Err(p) => ctx.violation("panic", "send_responses", "after-failed-send", detail(p)),
+                    Ok(Err(e)) => *failed.lock().unwrap() = Some(e),
+                    Ok(Ok(None)) => {}
+                    Ok(Ok(Some((clause, m)))) => ctx.violation(&clause, "reply-cert", &format!("{}/after-failed-send", v.name()), detail(m)),
+                }
+                certs_seen.fetch_add(patterns[pi].iter().map(|b| b.matches('g').count() as u64).sum::<u64>(), Relaxed);
+            });
+            if let Some(e) = failed.lock().unwrap().take() {
+                return Err(e);
+            }
+        }
+    }
     ctx.cov("evaluations", json!(evals.load(Relaxed)));
     ctx.cov("distinct_nontrivial", json!(nontrivial.load(Relaxed)));
     ctx.cov("reply_certs_checked", json!(certs_seen.load(Relaxed)));
     ctx.cov("restart_seeds", json!(seeds.len()));
     ctx.cov("exhaustive", json!(true));
-    ctx.cov("rule", json!("key part: per seed of the structured alphabet (zero, ff, RFC 8032 vectors, single-bit, single-byte-value, seeded random) three constructions give public key == Ed25519(seed) (dalek direct, RFC 8032 anchored) and SRV == SHA-512(0xff||pk)[0..32]; all sequences of length <= L over {make_cert(classic), make_cert(ietf)} x {fresh online key, online key A again, online key B again} on ONE LongTermKey, each CERT = DELE{PUBK(the online key),MINT,MAXT} signed under that version's delegation context and NOT verifying under the other version's. Live part: per seed 4 restarts of a real in-process Server (two with fault_percentage 0, two with 50; replies parsed leniently so that deliberately invalid ones are examined too) x event histories (C09 alphabet); the announced key equals the reference key; the CERT of every datagram emitted by either responder passes the same check and its window contains the reply's MIDP. Non-trivial = a cert sequence or an emitted reply's CERT."));
+    ctx.cov("rule", json!("key part: per seed of the structured alphabet (zero, ff, RFC 8032 vectors, single-bit, single-byte-value, seeded random) three constructions give public key == Ed25519(seed) (dalek direct, RFC 8032 anchored) and SRV == SHA-512(0xff||pk)[0..32]; all sequences of length <= L over {make_cert(classic), make_cert(ietf)} x {fresh online key, online key A again, online key B again} on ONE LongTermKey, each CERT = DELE{PUBK(the online key),MINT,MAXT} signed under that version's delegation context and NOT verifying under the other version's. Live part: per seed 4 restarts of a real in-process Server (two with fault_percentage 0, two with 50; replies parsed leniently so that deliberately invalid ones are examined too) x event histories (C09 alphabet); the announced key equals the reference key; the CERT of every datagram emitted by either responder passes the same check and its window contains the reply's MIDP; and the real Responder driven with batches in which some replies cannot be sent (unsendable return addresses): every reply that arrives, in that batch and all later ones, carries such a CERT. Non-trivial = a cert sequence or an emitted reply's CERT."));
     ctx.sample(json!({"kind":"certseq","mask":"0b0110","len":4,"versions":["classic","ietf13","ietf13","classic"]}));
     ctx.sample(json!({"kind":"restart","restarts":4,"events":["C0","I1","step"]}));
     ctx.assume("ed25519-dalek arithmetic trusted (RFC 8032 vectors); seeds are a structured alphabet, not all 2^256");
